@@ -1,5 +1,6 @@
 import UtilModel.CSync.RWProps
 import UtilModel.CSync.MxProps
+import UtilModel.CSync.Transfer
 open UtilModel UtilModel.CSync
 #print axioms UtilModel.accepts_sound
 #print axioms UtilModel.accepted_satisfies
@@ -12,3 +13,8 @@ open UtilModel UtilModel.CSync
 #print axioms Mx.reachable_inv
 #print axioms Mx.mutex_exclusion
 #print axioms Mx.C01_obs_mutex
+#print axioms UtilModel.acceptsH_sound
+#print axioms C01_accepted_rw
+#print axioms C01_accepted_mutex
+#print axioms cands_complete_rw
+#print axioms cands_complete_mutex
